@@ -444,7 +444,7 @@ def go_package_name(pkgdir):
 
 
 def load_findings(pid):
-    p = os.path.join(VERIF, "known_findings.json")
+    p = os.environ.get("VERIF_FINDINGS_FILE") or os.path.join(VERIF, "known_findings.json")
     if not os.path.exists(p):
         return []
     data = json.load(open(p))
